@@ -57,7 +57,7 @@ def check(node: CallExpr, errors: list[Error]) -> None:
                 name="endswith",
             ),
             args=[StrExpr(value=suffix)],
-        ) if FILE_EXTENSION.match(suffix) and is_pathlike(file):
+        ) if FILE_EXTENSION.fullmatch(suffix) and is_pathlike(file):
             old = f'x.name.endswith("{suffix}")'
             new = f'x.suffix == "{suffix}"'
 
